@@ -140,7 +140,8 @@ func serializeAttrsImpl(pc *PrintCtx, kvps Attrs, asObject bool) (err error) { /
 	prefix := pc.prefix
 
 	if pc.dedupeAttrs {
-		slices.SortFunc(kvps, func(a, b Attr) int {
+		// stable: among equal keys the order of the sources decides which one wins
+		slices.SortStableFunc(kvps, func(a, b Attr) int {
 			if a == nil {
 				if b == nil {
 					return 0
